@@ -224,3 +224,41 @@ def write_evidence(ctx, counts, new, listed, seed, selftest):
     os.makedirs(d, exist_ok=True)
     with open(os.path.join(d, "%s.json" % ctx.prop), "w") as fh:
         json.dump(ev, fh, indent=1, default=str)
+
+
+class Sub:
+    """View of a Ctx under which another property's rule function runs: rule ids `<src>.Rn` are recorded as
+    `<dst>.<src>Rn` (e.g. C27.R3 -> C28.C27R3); rules outside `only` are dropped.  Lets a property reuse the
+    obligations that another property already states for the same anchored code."""
+
+    def __init__(self, ctx, src, only=None, floors=True):
+        self._ctx = ctx
+        self._src = src
+        self._only = set(only) if only else None
+        self._floors = floors
+
+    def _map(self, rid):
+        if not rid.startswith(self._src + "."):
+            return rid
+        if self._only is not None and rid not in self._only:
+            return None
+        return "%s.%s%s" % (self._ctx.prop, self._src, rid.split(".", 1)[1])
+
+    def rule(self, rid, text, floor=0):
+        m = self._map(rid)
+        if m is not None:
+            self._ctx.rule(m, "[shared with %s] %s" % (rid, text), floor if self._floors else 0)
+
+    def ob(self, rule, site, what, ok, construct=None, node=None, detail=None):
+        m = self._map(rule)
+        if m is None:
+            return bool(ok)
+        return self._ctx.ob(m, site, what, ok, construct=construct, node=node, detail=detail)
+
+    def undecided(self, rule, site, why):
+        m = self._map(rule)
+        if m is not None:
+            self._ctx.undecided(m, site, why)
+
+    def __getattr__(self, name):
+        return getattr(self._ctx, name)
